@@ -53,6 +53,9 @@ func runC14(c *CaseCtx) {
 		if cfg.Mode == 2 {
 			sparse = true
 		}
+		// every database gets a NodeNum no database of this worker process has used before: the first transaction
+		// of each one registers its id generator in a process-wide table while other goroutines begin transactions
+		cfg.Node = int64(2 + (c.Case*3+i)%1000)
 		cfgs = append(cfgs, cfg)
 	}
 	class := "concurrent"
